@@ -59,6 +59,14 @@ def accepts(op, k):
     return k == "bool"
 
 
+def pregen():
+    """regenerate coq/theories/Gen/DispatchArms.v from the current Rust source (see translators/dispatch_arms.py)"""
+    import importlib, os, sys
+    from vlib import core
+    sys.path.insert(0, os.path.join(core.ROOT, "translators"))
+    return importlib.import_module("dispatch_arms").regenerate()
+
+
 # ---- literal pools --------------------------------------------------------
 def irange(k):
     w = int(k[1:])
